@@ -97,17 +97,13 @@ theorem start_log_shape : Finish.startStmts.getLast? = some .write ∧ W.seriali
 
 /-- **Where a new action or message goes** (C02 / C04 anchors): the bodies of `start_action`, `startTask`, `log_message` and
 `Action.child` as the source has them now are the ones the core model's `World.startAction`, `World.logMessage` / `currentOrFresh`
-and `World.childRec` transcribe: the parent is the current action at creation time, no current action means a new task with a
+and `World.childRec` transcribe (parameters and locals alpha-renamed `v0, v1, ...` by the extractor): the parent is the current action at creation time, no current action means a new task with a
 fresh `uuid4()` at level `[]`, a child takes the parent's uuid and its next position. -/
 theorem placement_shapes :
-    Finish.startActionBody = ["parent = current_action()",
-      "if parent is None:\n    return startTask(logger, action_type, _serializers, **fields)\nelse:\n    action = parent.child(logger, action_type, _serializers)\n    action._start(fields)\n    return action"] ∧
-    Finish.startTaskBody = ["action = Action(logger, str(uuid4()), TaskLevel(level=[]), action_type, _serializers)", "action._start(fields)", "return action"] ∧
-    Finish.logMessageBody = ["action = current_action()",
-      "if action is None:\n    logger = fields.pop('__eliot_logger__', None)\n    action = Action(logger, str(uuid4()), TaskLevel(level=[]), '')",
-      "action.log(message_type, **fields)"] ∧
-    Finish.childBody = ["newLevel = self._nextTaskLevel()",
-      "return self.__class__(logger, self._identification[TASK_UUID_FIELD], newLevel, action_type, serializers)"] :=
+    Finish.startActionBody = ["v4 = current_action()", "if v4 is None:\n    return startTask(v0, v1, v2, **v3)\nelse:\n    v5 = v4.child(v0, v1, v2)\n    v5._start(v3)\n    return v5"] ∧
+    Finish.startTaskBody = ["v4 = Action(v0, str(uuid4()), TaskLevel(level=[]), v1, v2)", "v4._start(v3)", "return v4"] ∧
+    Finish.logMessageBody = ["v2 = current_action()", "if v2 is None:\n    v3 = v1.pop('__eliot_logger__', None)\n    v2 = Action(v3, str(uuid4()), TaskLevel(level=[]), '')", "v2.log(v0, **v1)"] ∧
+    Finish.childBody = ["v3 = self._nextTaskLevel()", "return self.__class__(v0, self._identification[TASK_UUID_FIELD], v3, v1, v2)"] :=
   ⟨rfl, rfl, rfl, rfl⟩
 
 end Sys.C03Fin
